@@ -63,23 +63,23 @@ SortResults(s, asc) == Weave(SortedLive(s, asc), Len(s) - Len(Compact(s)))
 \* ------------------------------- actions --------------------------------
 Init == tb = [t \in Tables |-> <<>>]
 
-Set(t, s) == tb' = [tb EXCEPT ![t] = s]
+Upd(t, s) == [tb EXCEPT ![t] = s]
 
-Insert(t, k, v)   == \E s \in MaybeCompact(tb[t]) : Set(t, InsertIn(s, k, v))
-GetOrCreate(t, k) == \E s \in MaybeCompact(tb[t]) : Set(t, GetIn(s, k))
-Remove(t, k)      == Set(t, IF HasKey(tb[t], k) THEN [tb[t] EXCEPT ![Pos(tb[t], k)] = Dead] ELSE tb[t])
-RemoveIndex(t, i) == Set(t, IF (i + 1) \in LiveIdx(tb[t]) THEN [tb[t] EXCEPT ![i + 1] = Dead] ELSE tb[t])
+Insert(t, k, v)   == \E s \in MaybeCompact(tb[t]) : tb' = Upd(t, InsertIn(s, k, v))
+GetOrCreate(t, k) == \E s \in MaybeCompact(tb[t]) : tb' = Upd(t, GetIn(s, k))
+Remove(t, k)      == tb' = Upd(t, IF HasKey(tb[t], k) THEN [tb[t] EXCEPT ![Pos(tb[t], k)] = Dead] ELSE tb[t])
+RemoveIndex(t, i) == tb' = Upd(t, IF (i + 1) \in LiveIdx(tb[t]) THEN [tb[t] EXCEPT ![i + 1] = Dead] ELSE tb[t])
 RenameOK(s, a, b) == HasKey(s, a) /\ ~HasKey(s, b)
-Rename(t, a, b)   == Set(t, IF RenameOK(tb[t], a, b) THEN [tb[t] EXCEPT ![Pos(tb[t], a)].k = b] ELSE tb[t])
+Rename(t, a, b)   == tb' = Upd(t, IF RenameOK(tb[t], a, b) THEN [tb[t] EXCEPT ![Pos(tb[t], a)].k = b] ELSE tb[t])
 Min(a, b) == IF a < b THEN a ELSE b
-Resize(t, n)      == Set(t, IF n = 0 THEN <<>> ELSE Compact(SubSeq(tb[t], 1, Min(n, Len(tb[t])))))
-Expect(t)         == \E s \in MaybeCompact(tb[t]) : Set(t, s)
-Compress(t)       == Set(t, Compact(tb[t]))
-Clear(t)          == Set(t, <<>>)      \* Clear, Reset and Reserve(n) all empty the table
-Sort(t, asc)      == \E r \in SortResults(tb[t], asc) : Set(t, r)
-CopyFrom(t, u)    == t # u /\ Set(t, Compact(tb[u]))                       \* t = u (copy assignment / construction)
+Resize(t, n)      == tb' = Upd(t, IF n = 0 THEN <<>> ELSE Compact(SubSeq(tb[t], 1, Min(n, Len(tb[t])))))
+Expect(t)         == \E s \in MaybeCompact(tb[t]) : tb' = Upd(t, s)
+Compress(t)       == tb' = Upd(t, Compact(tb[t]))
+Clear(t)          == tb' = Upd(t, <<>>)      \* Clear, Reset and Reserve(n) all empty the table
+Sort(t, asc)      == \E r \in SortResults(tb[t], asc) : tb' = Upd(t, r)
+CopyFrom(t, u)    == t # u /\ tb' = Upd(t, Compact(tb[u]))                       \* t = u (copy assignment / construction)
 MoveFrom(t, u)    == t # u /\ tb' = [tb EXCEPT ![t] = tb[u], ![u] = <<>>]   \* t = move(u); storage is adopted as is
-MergeCopy(t, u)   == t # u /\ \E s \in MaybeCompact(tb[t]) : Set(t, MergeIn(s, tb[u]))
+MergeCopy(t, u)   == t # u /\ \E s \in MaybeCompact(tb[t]) : tb' = Upd(t, MergeIn(s, tb[u]))
 MergeMove(t, u)   == t # u /\ \E s \in MaybeCompact(tb[t]) : tb' = [tb EXCEPT ![t] = MergeIn(s, tb[u]), ![u] = <<>>]
 
 Next == \E t \in Tables :
